@@ -17,6 +17,7 @@
      dataend <wal_offset> <wal_size> <footer_offset> <frames> <spans off:len,…|-> → ok <data_end> <payload_end>
      bounds <wal_offset> <wal_size> <data_end> <file_len> <off> <len> → ok
      timeline <n_frames> <limit|-> <ids,…|-> → ok <ids>
+     walappend <ro> <size> <pending> <write_head> <sequence> <payload_len> → ok <new sequence>
      planner <pending>                      → ok replay | ok noreplay
      blob <file_len> <start> <len> <target> <checksum ok 0/1> → ok <pos> -/
 import MvModel.Decoders
@@ -133,6 +134,10 @@ def step (_ : Unit) (ws : List String) : Unit × String :=
       let lim := if lim == "-" then none else lim.toNat?
       ((), showOut (timelineSelect ids lim n) showNats)
     | _, _ => bad
+  | ["walappend", ro, size, pend, wh, sq, pl] =>
+    match size.toNat?, pend.toNat?, wh.toNat?, sq.toNat?, pl.toNat? with
+    | some size, some pend, some wh, some sq, some pl => ((), showOut (walAppend (ro == "1") size pend wh sq pl) toString)
+    | _, _, _, _, _ => bad
   | ["planner", p] => match p.toNat? with
     | some p => ((), showOut (plannerCompute p) fun b => if b then "replay" else "noreplay")
     | none => bad
